@@ -295,9 +295,25 @@ fn body(writers: &[usize], readers: &[Reader]) {
     outcome(&(seen, fin.v, id));
 }
 
+/// One thread: the entry's lock, reload counter and reload flag are loom objects.
+pub fn probe() {
+    must_branch("entry read / last_reload_id / reloaded_global / watcher / write / copied", || {
+        let e = new_entry(0);
+        let h = e.inner().downcast_ref::<Pair>().unwrap();
+        drop(h.read());
+        h.last_reload_id();
+        h.reloaded_global();
+        let mut w = h.reload_watcher();
+        w.reloaded();
+        e.inner().write(new_entry(1));
+        h.copied();
+    });
+    outcome(&PROBE);
+}
+
 pub fn configs(thorough: bool) -> Vec<Config> {
     use Reader::*;
-    let mut v = vec![];
+    let mut v = vec![Config::new(PROBE.into(), Bound::Unbounded, probe)];
     let mut add = |writers: Vec<usize>, readers: Vec<Reader>| {
         let name = format!("w{}:{}", writers.iter().map(|n| n.to_string()).collect::<Vec<_>>().join("+"), readers.iter().map(|r| r.tag()).collect::<Vec<_>>().join("|"));
         // one writer thread + one reader thread: small enough to explore without preemption bound
@@ -339,3 +355,11 @@ pub fn configs(thorough: bool) -> Vec<Config> {
     }
     v
 }
+
+pub const SUB: crate::driver::Sub = crate::driver::Sub {
+    name: "c07_entry_loom",
+    property: "C07",
+    configs,
+    rule: "configs = writers {1x1, 1x2, 1x3, 1+1, 2+1 writes} x readers {typed guard, untyped+downcast guard, mapped guard, typed then mapped, copied(), cloned(), read().clone(), Debug; 1-2 reader threads}; each reader copies value and reload id under its guard (or through the accessor), yields, and looks again; every access to the entry's value is a loom-tracked read/write event (TrackedCell), so an access that is not ordered by the lock is a `data-race`; for each config loom enumerates every interleaving of the entry's RwLock and atomic operations within the preemption bound. distinct = distinct (what each reader saw, final value, final id) observations",
+    bound: "1-2 writer threads, 1-2 reader threads, <=3 writes; same configs in both tiers; one writer + one reader with <=2 writes: unbounded",
+};
